@@ -40,6 +40,10 @@ PRE = [z3.Bool("k_pre_%s" % n) for n in NAMES]
 LOAD = [z3.Bool("k_loadable_%s" % n) for n in NAMES]
 ENV = z3.Int("k_env")            # -1 unset, 0..7 the known names, 8 an unknown name
 IPY = z3.Bool("k_ipython")
+# how an unloadable backend fails to import: a missing package (ImportError), missing external tools (RuntimeError, as
+# the qaptools backend raises), an outdated binding (AttributeError in the module body), a broken shared object (OSError)
+KIND = z3.Int("k_failure_kind")
+FAILURES = (ImportError, RuntimeError, AttributeError, OSError)
 
 
 class _Anything:
@@ -160,7 +164,10 @@ class Selection(Contract):
                 i = PATHS.index(name)
                 w.import_attempts.append(name)
                 if name != "pysnark.nobackend" and not cur().decide(LOAD[i]):
-                    raise ImportError("backend module %s is not loadable in this environment" % name)
+                    for k, exc in enumerate(FAILURES[:-1]):
+                        if cur().decide(KIND == k):
+                            raise exc("backend module %s is not loadable in this environment" % name)
+                    raise FAILURES[-1]("backend module %s is not loadable in this environment" % name)
             return orig_import(name)
         w.import_module = guarded_import
         w.import_attempts = []
@@ -181,6 +188,7 @@ class Selection(Contract):
         for d, b in DERIVED.items():
             out.append(Implies(LOAD[d], LOAD[b]))
         out.append(And(ENV >= -1, ENV <= 8))
+        out.append(And(KIND >= 0, KIND < len(FAILURES)))
         out.append(LOAD[7])                   # pysnark.nobackend is pure Python and always loads
         return out
 
@@ -194,10 +202,11 @@ class Selection(Contract):
         return select, (), {}
 
     def raises(self, c):
-        # a known name whose module cannot be loaded fails loudly (ImportError propagates)
+        # a known name whose module cannot be loaded fails loudly (the import's own exception propagates); in
+        # auto-detection an unloadable backend is skipped, however it fails
         no_pre = Not(Or(*PRE))
         conds = [And(no_pre, ENV == i, Not(LOAD[i])) for i in range(len(NAMES))]
-        return [(ImportError, Or(*conds))]
+        return [(exc, And(Or(*conds), KIND == k)) for k, exc in enumerate(FAILURES)]
 
     def post(self, c, rt):
         w = c.w
@@ -255,7 +264,7 @@ blocked = set(cfg["blocked"])
 class Block(importlib.abc.MetaPathFinder):
     def find_spec(self, name, path, target=None):
         if name in blocked:
-            raise ImportError("blocked for replay: " + name)
+            raise getattr(builtins, cfg.get("failure", "ImportError"))("blocked for replay: " + name)
         return None
 sys.meta_path.insert(0, Block())
 if cfg["ipython"]:
@@ -326,14 +335,15 @@ def _selection_replay(self, ob, cfg):
         blocked = [PATHS[i] for i, n in enumerate(NAMES) if not truth("k_loadable_" + n) and i not in pre and n != "nobackend"]
         req = dict(stubs=stubs, repo=REPO, blocked=blocked, ipython=truth("k_ipython"),
                    env=None if env_i < 0 else (NAMES[env_i] if env_i < 8 else "no-such-backend"),
-                   preimport=[PATHS[i] for i in pre], interface=list(INTERFACE))
+                   preimport=[PATHS[i] for i in pre], interface=list(INTERFACE),
+                   failure=FAILURES[int(model.get("k_failure_kind", 0)) % len(FAILURES)].__name__)
         rq, outp = os.path.join(tmp, "req.json"), os.path.join(tmp, "out.json")
         json.dump(req, open(rq, "w"))
         script = os.path.join(tmp, "probe.py")
         open(script, "w").write(_PROBE)
         pr = subprocess.run([sys.executable, script, rq, outp], cwd=tmp, capture_output=True, text=True, timeout=60, env=env)
         res = json.load(open(outp)) if os.path.exists(outp) else dict(exception="no output", stderr=pr.stderr[-800:])
-        res["environment"] = {k: req[k] for k in ("env", "preimport", "blocked", "ipython")}
+        res["environment"] = {k: req[k] for k in ("env", "preimport", "blocked", "ipython", "failure")}
         confirmed = False
         clause = ob["name"]
         name = res.get("backend_name")
@@ -360,8 +370,12 @@ def _selection_replay(self, ob, cfg):
                 confirmed = idx != first
             elif clause == "V.name_identifies_proof_system":
                 confirmed = res.get("use_groth") is not None and res["use_groth"] != (name == "libsnarkgg")
-        elif "exception" in res and clause.startswith("R.cond_implies_raise"):
-            confirmed = False
+        elif "exception" in res and clause.startswith(("R.unexpected_exception[", "R.raise_implies_cond[")):
+            # the selection let an exception escape where it has to carry on: only a known name whose module
+            # cannot be loaded may fail
+            exc = clause.split("[")[1].split("]")[0].split("#")[0]
+            named_unloadable = (not pre) and 0 <= env_i < 8 and PATHS[env_i] in blocked
+            confirmed = res["exception"].startswith(exc + ":") and not named_unloadable
         res["confirmed"] = bool(confirmed)
         return res
     finally:
